@@ -238,3 +238,26 @@ Definition deletes_checked_column (s : schema) (_ : list action) (a : action) : 
   | _ => false
   end.
 Definition known_C02_check_survives_column_drop (s : schema) (acts : list action) : bool := exists_step deletes_checked_column s acts.
+
+(* ================================================= C05 ================================================= *)
+(* ---- C05-parent-rebuild-fk-on (DESIGN D12): some statement of the plan drops a table that a foreign key (of another table,
+   or of the table itself) references: with foreign_keys=ON the implicit DELETE fires the ON DELETE action on every
+   referencing row (rows deleted / nullified) or fails (RESTRICT, NO ACTION, SET NULL on a NOT NULL column) *)
+Definition drops_of (l : list stmt) : list string :=
+  flat_map (fun st => match st with SDropTable t => [t] | _ => [] end) l.
+Definition drops_referenced_table (s : schema) (r : list action) (a : action) : bool :=
+  existsb (fun t => existsb (references t) s) (drops_of (stmts_of (gen s (pending_for a r) a))).
+Definition known_C05_parent_rebuild (s : schema) (acts : list action) : bool := exists_step drops_referenced_table s acts.
+
+(* ---- C05-add-column-nonconstant-default: a nullable, non-enum column with a default of CURRENT_TIMESTAMP / CURRENT_DATE /
+   CURRENT_TIME or a parenthesised expression is added with ALTER TABLE ADD COLUMN, which SQLite refuses on a table that
+   holds rows ("Cannot add a column with non-constant default") *)
+Definition nonconstant_default (d : string) : bool :=
+  let n := to_lower (trim d) in
+  (first_char_is "("%char n || String.eqb n "current_timestamp" || String.eqb n "current_date" || String.eqb n "current_time")%bool.
+Definition adds_nonconstant_default (s : schema) (r : list action) (a : action) : bool :=
+  existsb (fun st => match st with
+                     | SAddColumn _ c => match sc_default c with Some d => nonconstant_default d | None => false end
+                     | _ => false end) (stmts_of (gen s (pending_for a r) a)).
+Definition known_C05_add_column_nonconstant_default (s : schema) (acts : list action) : bool :=
+  exists_step adds_nonconstant_default s acts.
